@@ -539,6 +539,9 @@ func skelTrace(p *packages.Package, fd *ast.FuncDecl) []string {
 		id, ok := s.X.(*ast.Ident)
 		return ok && strings.Contains(strings.ToLower(id.Name), "wg")
 	}
+	// names are normalised so that renaming the loop variables or the goroutine's parameters is harmless: an argument that is the
+	// loop's key / value variable is written "loopkey" / "loopval", the parameters are written by position
+	loopKey, loopVal := "", ""
 	var goIn func(list []ast.Stmt)
 	goIn = func(list []ast.Stmt) {
 		for k, st := range list {
@@ -561,13 +564,20 @@ func skelTrace(p *packages.Package, fd *ast.FuncDecl) []string {
 				}
 				var args []string
 				for _, a := range x.Call.Args {
-					args = append(args, src(a))
+					t := src(a)
+					switch t {
+					case loopKey:
+						t = "loopkey"
+					case loopVal:
+						t = "loopval"
+					}
+					args = append(args, t)
 				}
 				var params []string
 				if fl, ok := x.Call.Fun.(*ast.FuncLit); ok {
 					for _, f := range fl.Type.Params.List {
-						for _, n := range f.Names {
-							params = append(params, n.Name)
+						for range f.Names {
+							params = append(params, fmt.Sprintf("p%d", len(params)))
 						}
 					}
 				}
@@ -575,7 +585,11 @@ func skelTrace(p *packages.Package, fd *ast.FuncDecl) []string {
 			case *ast.AssignStmt:
 				if len(x.Lhs) == 1 {
 					if ix, ok := x.Lhs[0].(*ast.IndexExpr); ok {
-						out = append(out, "main-store "+src(ix.X)+"["+src(ix.Index)+"]")
+						idx := src(ix.Index)
+						if idx == loopKey {
+							idx = "loopkey"
+						}
+						out = append(out, "main-store "+src(ix.X)+"["+idx+"]")
 					}
 				}
 			case *ast.SwitchStmt:
@@ -614,7 +628,14 @@ func skelTrace(p *packages.Package, fd *ast.FuncDecl) []string {
 		case *ast.DeferStmt:
 			out = append(out, "defer "+src(x.Call))
 		case *ast.RangeStmt:
-			out = append(out, "loop "+src(x.Key)+" over "+src(x.X))
+			out = append(out, "loop over "+src(x.X))
+			loopKey, loopVal = "", ""
+			if x.Key != nil {
+				loopKey = src(x.Key)
+			}
+			if x.Value != nil {
+				loopVal = src(x.Value)
+			}
 			goIn(x.Body.List)
 			out = append(out, "end-loop")
 		case *ast.ExprStmt:
